@@ -1,7 +1,8 @@
 /-
   Driver.C28 — replays the ops of go/C28 (verif-c28) on the model parser / printer of SH.Model.PromSyntax.
 
-    > parse <tokens>   →  < ok <ast> + < wf 0|1 | < err   (model `parse`, and whether the tree satisfies `wf`)
+    > parse <tokens>   →  < lex 0|1, then < ok <ast> + < wf 0|1 | < err
+                           (`tokOk` on every token, model `parse`, and whether the tree satisfies `wf`)
     > print <ast>      →  < toks <tokens>             (model `printExpr .fixed`, numbers/durations/strings reduced to
                                                        raw text / value exactly as the harness reduces the lexed real output)
 -/
@@ -35,10 +36,18 @@ def readTok (s : String) : Option Tok :=
   | [n, t] => if n = "NUMBER" || n = "STRING" || n = "DURATION" then none else some (.word (.kw n) t)
   | _ => none
 
+/-- lexInsideBraces: between `{` and `}` every word is an IDENTIFIER (`Tok.lname`) -/
+def inBraces : Bool → List Tok → List Tok
+  | _, [] => []
+  | _, .lk :: ts => .lk :: inBraces true ts
+  | _, .rk :: ts => .rk :: inBraces false ts
+  | true, .word .ident t :: ts => .lname t :: inBraces true ts
+  | b, t :: ts => t :: inBraces b ts
+
 def readToks (l : List String) : Option (List Tok) :=
   match l with
   | ["-"] => some []
-  | l => l.mapM readTok
+  | l => (l.mapM readTok).map (inBraces false)
 
 def showTokReduced : Tok → String
   | .lp => "LEFT_PAREN" | .rp => "RIGHT_PAREN" | .lk => "LEFT_BRACE" | .rk => "RIGHT_BRACE" | .lb => "LEFT_BRACKET"
@@ -46,6 +55,7 @@ def showTokReduced : Tok → String
   | .att => "AT" | .eqlre => "EQL_REGEX" | .neqre => "NEQ_REGEX" | .err => "ERR"
   | .sym o => o.yacc
   | .word .ident t => "IDENTIFIER/" ++ t
+  | .lname t => "IDENTIFIER/" ++ t
   | .word .mident t => "METRIC_IDENTIFIER/" ++ t
   | .word (.kw n) t => n ++ "/" ++ t
   | .word (.num _ _ _) raw => "NUMBER/" ++ raw
@@ -201,9 +211,13 @@ def step (_ : Unit) (toks : List String) : Unit × List String :=
   | "parse" :: l =>
     match readToks l with
     | none => ((), ["bad-op"])
-    | some ts => match parse ts with
-      | some e => ((), ["ok " ++ showExpr e, "wf " ++ b01 (wf e)])   -- hypothesis of parse_print, evaluated on the parser's output
-      | none => ((), ["err"])
+    | some ts =>
+      -- `lex`: hypothesis of accepted_roundtrip (every token is one the lexer can produce, no 0-second duration),
+      -- `wf`: hypothesis of parse_print, evaluated on the parser's output
+      let lex := "lex " ++ b01 (ts.all tokOk)
+      match parse ts with
+      | some e => ((), [lex, "ok " ++ showExpr e, "wf " ++ b01 (wf e)])
+      | none => ((), [lex, "err"])
   | "print" :: l =>
     match readExpr l with
     | some (e, []) => ((), ["toks " ++ showToks (printExpr .fixed e)])
